@@ -387,6 +387,7 @@ type cfgTargets struct {
 	gate    chan struct{} // closed to release held replies
 	gateMu  sync.Mutex
 	dialed  int64
+	got     sync.Map // tag of a 'T' connection -> total bytes the target received on it (int)
 }
 
 func socks4(ip net.IP, port int) []byte {
@@ -437,6 +438,26 @@ func (t *cfgTargets) serve(c net.Conn) {
 	buf := make([]byte, 32768)
 	n, err := c.Read(buf)
 	if n == 0 || err != nil {
+		return
+	}
+	if buf[0] == 'T' {
+		// the target finishes first: it says its piece, half-closes, and keeps reading whatever the
+		// client still uploads; the total is published under the connection's tag when the client ends
+		tag := string(buf[:n])
+		if i := bytes.IndexByte(buf[:n], '|'); i > 0 {
+			tag = string(buf[:i])
+		}
+		c.Write([]byte("fin-first"))
+		c.(*net.TCPConn).CloseWrite()
+		total := n
+		for {
+			m, err := c.Read(buf)
+			total += m
+			if err != nil {
+				break
+			}
+		}
+		t.got.Store(tag, total)
 		return
 	}
 	if buf[0] == 'H' {
@@ -913,6 +934,9 @@ func (r *cfgRun) openLong(l lkey, k probeKey, kind string, step int) *longConn {
 	if kind == "half" {
 		first[0] = 'H'
 	}
+	if kind == "tfin" {
+		first = []byte(fmt.Sprintf("T-long-%d-%d|", os.Getpid(), atomic.AddInt64(&r.probeN, 1)))
+	}
 	if _, err := w.Write(append(append([]byte{}, r.tg.tcpAddr...), first...)); err != nil {
 		c.Close()
 		return nil
@@ -928,6 +952,15 @@ func (r *cfgRun) openLong(l lkey, k probeKey, kind string, step int) *longConn {
 		lc.pending = first
 		c.(*net.TCPConn).CloseWrite()
 		time.Sleep(20 * time.Millisecond)
+	case "tfin":
+		// the target half-closes first; the client has read its piece and the EOF, and keeps
+		// its own direction open across the reload
+		got, err := io.ReadAll(lc.r)
+		if err != nil || string(got) != "fin-first" {
+			c.Close()
+			return nil
+		}
+		lc.pending = first
 	}
 	return lc
 }
@@ -960,6 +993,24 @@ func (r *cfgRun) finishLong(lc *longConn) string {
 		got, err := io.ReadAll(lc.r)
 		if err != nil || !bytes.Equal(got, lc.pending) {
 			return fmt.Sprintf("half-closed connection did not receive the target's reply after the reload: %v (%d of %d bytes)", err, len(got), len(lc.pending))
+		}
+	case "tfin":
+		// upload after the reload on a connection whose target already finished
+		up := bytes.Repeat([]byte{0x5a}, 30000)
+		_, werr := lc.w.Write(up)
+		lc.c.(*net.TCPConn).CloseWrite()
+		tag := strings.TrimSuffix(string(lc.pending), "|")
+		want := len(lc.pending) + len(up)
+		total := -1
+		for try := 0; try < 600; try++ {
+			if v, ok := r.tg.got.Load(tag); ok {
+				total = v.(int)
+				break
+			}
+			time.Sleep(5 * time.Millisecond)
+		}
+		if total != want {
+			return fmt.Sprintf("the target had half-closed before the reload; of the %d bytes the client uploaded afterwards the target received %d (write error: %v)", want, total, werr)
 		}
 	}
 	return ""
@@ -1128,7 +1179,7 @@ func runCfgHistory(ctx *Ctx, h *cfgHistory, dir string, withTraffic bool) (*cfgH
 			if predicted == 0 {
 				next = pool.expectedTable(f)
 			}
-			kinds := []string{"idle", "mid", "half"}
+			kinds := []string{"idle", "mid", "half", "tfin"}
 			n := 0
 			for li, l := range pool.lkeys {
 				keys, ok := serving[l]
@@ -1144,7 +1195,7 @@ func runCfgHistory(ctx *Ctx, h *cfgHistory, dir string, withTraffic bool) (*cfgH
 					}
 				}
 				if kNow != nil && l.Proto == 0 {
-					if lc := r.openLong(l, *kNow, kinds[(n+i)%3], i); lc != nil {
+					if lc := r.openLong(l, *kNow, kinds[(n+i)%4], i); lc != nil {
 						longs = append(longs, lc)
 					} else {
 						r.find("C11/long-lived-open-failed", "could not open a relayed connection on a serving listener "+pool.dialAddr(l), nil)
